@@ -189,14 +189,15 @@ def proof_step(pid, thorough=False):
     output, source scan.  Returns dict(ok, obligations, discharged, axioms, log)."""
     out = {'ok': True, 'log': []}
     if not os.path.exists(os.path.join(COQ, 'Makefile')):
-        subprocess.run('coq_makefile -f _CoqProject -o Makefile', shell=True, cwd=COQ, capture_output=True)
-    r = subprocess.run('timeout 1500 make -j8', shell=True, cwd=COQ, capture_output=True, text=True)
+        subprocess.run('flock %s/.make.lock coq_makefile -f _CoqProject -o Makefile' % BUILD, shell=True, cwd=COQ, capture_output=True)
+    os.makedirs(BUILD, exist_ok=True)
+    r = subprocess.run('flock %s/.make.lock timeout 1500 make -j8' % BUILD, shell=True, cwd=COQ, capture_output=True, text=True)
     if r.returncode != 0:
         out['ok'] = False
         out['log'].append('make failed: ' + (r.stdout + r.stderr)[-1500:])
         out['broken'] = 'build'
     if not os.path.exists(DRIVER) or os.path.getmtime(DRIVER) < os.path.getmtime(os.path.join(COQ, 'ciwx.ml')):
-        r2 = subprocess.run(os.path.join(VERIF, 'ocaml', 'build.sh'), shell=True, capture_output=True, text=True)
+        r2 = subprocess.run('flock %s/.make.lock %s' % (BUILD, os.path.join(VERIF, 'ocaml', 'build.sh')), shell=True, capture_output=True, text=True)
         if r2.returncode != 0:
             out['ok'] = False
             out['log'].append('driver build failed: ' + (r2.stdout + r2.stderr)[-800:])
